@@ -46,6 +46,9 @@ type Case struct {
 	Body        BodySpec `json:"body"`
 	Cuts        []int    `json:"cuts"`
 	EOFWithLast bool     `json:"eof_with_last"`
+	// ContentLength: the request announces its (true) body size, as clients
+	// with a fixed-size body do
+	ContentLength bool `json:"content_length,omitempty"`
 }
 
 func encMsgs(b BodySpec) [][]byte {
@@ -120,12 +123,16 @@ func clientOutcome(b BodySpec, resp *refwire.Response, cuts []int, eofWithLast b
 	return Outcome{Msgs: res.Received, Err: errKey(res.Err), Clean: res.CleanEnd, Header: res.Header, Trailer: res.Trailer}
 }
 
-func handlerOutcome(b BodySpec, req *refwire.Request, cuts []int, eofWithLast bool) Outcome {
+func handlerOutcome(b BodySpec, req *refwire.Request, cuts []int, eofWithLast bool, contentLength ...bool) Outcome {
 	log := &prog.HLog{}
 	hp := &prog.HandlerProg{Drain: true, Resp: &prog.Msg{N: 7}}
 	h := prog.NewHandler(b.Kind, hp, log, prog.Config{HComp: []string{"deflate", "zlib", "toy"}}.HandlerOptions()...)
 	body := &memnet.ChunkReader{Data: req.Body, Cuts: cuts, EOFWithLast: eofWithLast}
-	rec := memnet.Serve(h, "POST", prog.Procedure(b.Kind), req.Header, body, memnet.ServeOpts{})
+	opts := memnet.ServeOpts{}
+	if len(contentLength) > 0 && contentLength[0] {
+		opts.HaveContentLength, opts.ContentLength = true, int64(len(req.Body))
+	}
+	rec := memnet.Serve(h, "POST", prog.Procedure(b.Kind), req.Header.Clone(), body, opts)
 	o := Outcome{}
 	calls := log.Snapshot()
 	if len(calls) == 1 {
@@ -219,8 +226,11 @@ func checkCase(tt *testing.T, c Case) (pbt.Info, error) {
 	} else {
 		req := buildRequest(c.Body)
 		data = req.Body
-		one = handlerOutcome(c.Body, req, nil, false)
-		seg = handlerOutcome(c.Body, req, c.Cuts, c.EOFWithLast)
+		one = handlerOutcome(c.Body, req, nil, false, c.ContentLength)
+		seg = handlerOutcome(c.Body, req, c.Cuts, c.EOFWithLast, c.ContentLength)
+		if c.ContentLength {
+			info.Label("request-announces-content-length")
+		}
 		if len(one.Msgs) != len(c.Body.Msgs) {
 			return info, fmt.Errorf("one-piece delivery of a valid %s %s request did not decode to its %d messages: got %v (%s)", c.Body.Protocol, c.Body.Kind, len(c.Body.Msgs), one.Msgs, one.Extra)
 		}
@@ -343,6 +353,7 @@ var pageTexts = []string{
 	"no healthy upstream", "upstream connect error or disconnect/reset before headers. reset reason: connection failure\n",
 	"404 page not found\n", "<html><body><h1>502 Bad Gateway</h1></body></html>\r\n", "line one\nline two\nline three\n", "x",
 	`{"code":"unavailable","message":"try later"}`, `{"error":"not connect"}`, strings.Repeat("long text ", 120),
+	"{\"code\":\"unavailable\",\"message\":\"try later\"}\n", "{\"code\":\"not_found\",\"message\":\"m\",\"details\":[]}\r\n  ", " {\"code\":\"aborted\"}",
 }
 
 func gen(t *rapid.T) Case {
@@ -372,6 +383,7 @@ func gen(t *rapid.T) Case {
 	}
 	sort.Ints(bounds)
 	c.Cuts, c.EOFWithLast = cutsGen(t, len(data), bounds)
+	c.ContentLength = c.Dir == "request" && rapid.Bool().Draw(t, "contentLength")
 	return c
 }
 
